@@ -17,10 +17,10 @@ CHECK_DEADLOCK FALSE
 """
 
 LEX = {
-    "identifier": ["a", "P", "R", "f", "Ada", "fees", "source", "x1", "Int", "min_utxo", "tip_slot", "t", "K", "input"],
-    "number": ["7", "0", "-1", "18446744073709551616", "99999999999999999999", "-9223372036854775809",
+    "identifier": ["a", "P", "R", "f", "Ada", "fees", "source", "x1", "Int", "min_utxo", "tip_slot", "t", "K", "input", "café", "Émile", "a\u0301"],
+    "number": ["7", "0", "-1", "\u0663", "\u22121", "18446744073709551616", "99999999999999999999", "-9223372036854775809",
                "340282366920938463463374607431768211456"],
-    "string": ['"s"', '""', '"hé€"', '"' + "x" * 70 + '"'],
+    "string": ['"s"', '""', '"hé€"', "\u201cs\u201d", '"' + "x" * 70 + '"'],
     "bool": ["true", "false"],
     "hex_string": ["0x00", "0xabc", "0x" + "ab" * 40, "0xAB", "0x" + "11" * 28],
     "wildcard": ["*"],
@@ -104,13 +104,18 @@ def text_of(tokens, mode, seed):
     return pp.layout(tokens, mode, seed)
 
 
+STRAYS = ["é", "\u2026", "\u2212", "\u201c", "€", "\u00a0", "\u2028", "\U0001F600", "ß"]   # 2-, 3- and 4-byte characters
+
+
 def mutate_tokens(toks, rng):
     toks = list(toks)
     k = rng.random()
     if not toks:
         return toks
     i = rng.randrange(len(toks))
-    if k < 0.25:
+    if k < 0.12:
+        toks.insert(i, rng.choice(STRAYS))      # the error position lands on a multi-byte character
+    elif k < 0.25:
         del toks[i]
     elif k < 0.45:
         toks.insert(i, toks[i])
@@ -290,6 +295,12 @@ def build_sources(rep, tier, seed, multiline):
             toks = pre + realise(sent, rng) + post
             mode = rng.choice([0, 0, 2, 1]) if multiline else 0
             sources.append(("grammar:" + root, text_of(toks, mode, rng.randrange(1 << 30))))
+        # a stray multi-byte character at one token position: the diagnostic lands on it
+        if rng.random() < (0.15 if quick else 1.0):
+            pre, post = scaffolds(kind)[0]
+            toks = realise(sent, rng)
+            toks.insert(rng.randrange(len(toks) + 1), rng.choice(STRAYS))
+            sources.append(("stray:" + root, text_of(pre + toks + post, rng.choice([0, 2]), rng.randrange(1 << 30))))
         # one name for every identifier: self-reference, redefinition, shadowing
         if sum(1 for x in sent if x["t"] == "tok" and x["v"] == "identifier") >= 2:
             pre, post = scaffolds(kind)[0]
